@@ -88,7 +88,7 @@ def cpp_parser(p):
         rl.append(s)
     terms = ", ".join(f"t{i}" for i in range(len(p["terms"]))); nts = ", ".join(f"n{i}" for i in range(len(p["nts"])))
     body = f"parser(n{ntidx[p['root']]}, terms({terms}), nterms({nts}), rules(\n    " + ",\n    ".join(rl) + "))"
-    if p["constexpr"]: L.append(f"constexpr auto p = {body};\ninline const auto& get() {{ return p; }}")
+    if p["constexpr"]: L.append(f"constexpr auto p = {body};\ninline const auto& get() {{ return p; }}\n// the same parser constructed at run time (C07: both must be the same object and behave alike)\ninline const auto& get_rt() {{ static const auto q = {body}; return q; }}")
     else: L.append(f"inline const auto& get() {{ static const auto p = {body}; return p; }}")
     L.append("}")
     return "\n".join(L)
@@ -148,7 +148,9 @@ def main():
         for p in ps:
             ins = gen_inputs(rng, p, nin)
             f.write("  { std::vector<std::pair<std::string, int>> ins = {" + ", ".join("{std::string(%s, %d), %d}" % (cstr(b), len(b), fl) for b, fl in ins) + "};\n")
-            f.write(f'    h3::run_parser("{p["id"]}", P{p["id"]}::get(), ins, std::cout); }}\n')
+            f.write(f'    h3::run_parser("{p["id"]}", P{p["id"]}::get(), ins, std::cout);\n')
+            if p["constexpr"]: f.write(f'    h3::run_parser("{p["id"]}r", P{p["id"]}::get_rt(), ins, std::cout);\n')
+            f.write("  }\n")
             g.write(f"CASE {p['id']}\nRAW\n")
             for t in p["terms"]: g.write(f"TERMD {t['kind']} {w_bytes(t['id'])} {w_bytes(t['name'])} {t['prec']} {t['assoc']} {w_bytes(t['data'])}\n")
             for n in p["nts"]: g.write(f"NTERM {w_bytes([ord(c) for c in n])}\n")
